@@ -22,8 +22,10 @@ def sh(*a, **kw):
 
 
 def main():
-    base = sys.argv[1] if len(sys.argv) > 1 else os.path.join(ROOT, 'seeded')
-    only = sys.argv[2:] 
+    args = [a for a in sys.argv[1:] if not a.startswith('--')]
+    target_only = '--target-only' in sys.argv
+    base = args[0] if args else os.path.join(ROOT, 'seeded')
+    only = args[1:]
     from lt_static import runner
     from lt_static.registry import PROPERTIES
     runner.load_rules()
@@ -53,7 +55,7 @@ def main():
             print(f'{name}: PATCH DOES NOT APPLY: {r.stderr.strip()[:200]}')
             continue
         fired, errs, details = [], [], []
-        for pid in props:
+        for pid in ([target] if target_only else props):
             rr = sh('/venv/bin/python', os.path.join(ROOT, 'check.py'), pid, '--repo', SCRATCH, '--no-evidence')
             if rr.returncode == 1:
                 fired.append(pid)
